@@ -84,7 +84,7 @@ def main():
             {"name": "miri", "path": "/verif/harness/mirirun", "serves_properties": ["C03"],
              "kind_free_text": "generated sessions interpreted by Miri (thorough tier of C03): aliasing, uninitialised reads, dangling/misaligned accesses in the library's unsafe blocks"},
             {"name": "plainrun", "path": "/verif/harness/plainrun", "serves_properties": ["C01", "C03", "C05"],
-             "kind_free_text": "session runner over the public API only, built without and with the verif-hooks feature; generated sessions must behave identically in both builds (the verdicts reached with hooks on carry over to the library as users build it)"},
+             "kind_free_text": "session runner over the public API only, built without the verif-hooks feature, with it, and without it in a profile without debug assertions and overflow checks; generated sessions must behave identically in all three builds (the verdicts reached with hooks on carry over to the library as users build it)"},
             {"name": "vsession", "path": "/verif/harness/vsession", "serves_properties": ["C16"],
              "kind_free_text": "session trace server built once per subset of {history, autocomplete, help}"},
         ],
